@@ -89,7 +89,7 @@ def build(release=False, mode="dyn"):
 STRACE_SYSCALLS = "mmap,munmap,clone,clone3,set_tid_address,exit,exit_group"
 
 
-def run_probe(chk, bindir, name, script, strace=False, inject=None, timeout=120):
+def run_probe(chk, bindir, name, script, strace=False, inject=None, timeout=120, cpus=None):
     """Run the probe on `script` (list of lines).  A hang of the probe process itself (beyond its
     own watchdog) is data too: the process is killed and the run is marked `killed`."""
     d = os.path.join(chk.work, "runs")
@@ -108,9 +108,13 @@ def run_probe(chk, bindir, name, script, strace=False, inject=None, timeout=120)
         if inject:
             pre += ["-e", "inject=" + inject]
         cmd = pre + cmd
+    if cpus:
+        # confine the whole process (and the tracer) to a CPU set: preemption-driven interleavings
+        cmd = ["taskset", "-c", cpus] + cmd
     r = Run(name)
     r.script = script
     r.inject = inject
+    r.cpus = cpus
     t0 = time.time()
     try:
         p = subprocess.run(cmd, stdout=subprocess.PIPE, stderr=subprocess.PIPE, timeout=timeout)
@@ -122,15 +126,15 @@ def run_probe(chk, bindir, name, script, strace=False, inject=None, timeout=120)
     if not os.path.exists(op):
         raise core.ToolError("probe produced no output file for run %s (rc=%s)" % (name, r.rc))
     evs = []
-    for line in open(op, errors="replace"):
-        line = line.strip()
-        if not line:
-            continue
+    lines = [l.strip() for l in open(op, errors="replace")]
+    lines = [l for l in lines if l]
+    for i, line in enumerate(lines):
         try:
             evs.append(json.loads(line))
         except ValueError:
             # a torn line can only be the last one of a killed / crashed process
-            continue
+            if i != len(lines) - 1:
+                raise core.ToolError("probe run %s: event line %d is not valid JSON: %s" % (name, i + 1, line[:200]))
     evs.sort(key=lambda e: e["seq"])
     r.events = evs
     if strace:
@@ -325,7 +329,8 @@ def normalise(run):
     last_q = None
     batch_threads = 0
     batch_panicked = 0
-    logalloc = True
+    panicked_since_base = 0
+    logalloc_now = not any(l.startswith("set") and "logalloc=0" in l for l in run.script)
 
     def emit(t, rec, raw=None):
         t.ev.append(rec)
@@ -440,6 +445,7 @@ def normalise(run):
                 emit(t, {"e": "fin", "how": "ret" if ev == "cend" else "panic"}, e)
                 if ev == "cpanic":
                     batch_panicked += 1
+                    panicked_since_base += 1
         elif ev in ("join_call", "drop_call"):
             t = threads.get(e["k"])
             if t:
@@ -495,6 +501,7 @@ def normalise(run):
             last_q = None
             batch_threads = 0
             batch_panicked = 0
+            panicked_since_base = 0
         elif ev == "quiesce":
             left_unattr = 0
             attributed = 0
@@ -505,7 +512,11 @@ def normalise(run):
                     left_unattr += 1
             more = e["left_n"] - len(e.get("left_p", []))
             n_attr_live = len(blocks)
-            if more > 0:
+            if not logalloc_now:
+                # no allocator log in this run (huge batches): the only admitted leftovers are the
+                # closure boxes of the threads that panicked since the baseline, one each
+                left_unattr = max(0, e["left_n"] - panicked_since_base)
+            elif more > 0:
                 # list truncated: everything beyond the attributed live blocks is unexplained
                 left_unattr = max(0, e["left_n"] - n_attr_live)
             growth = 0
